@@ -172,3 +172,25 @@ for i1, (rr1, cc1) in enumerate([(r, c_) for r in ROWS for c_ in COLS]):
                 src = 'col2' if in2 else 'col1' if in1 else '_d'
                 c.ensures('cell-%d-%d-is-%s' % (r, k, {'col2': 'later-stage', 'col1': 'earlier-stage', '_d': 'default'}[src]),
                           ' and '.join('D[0][2][%d][%d] == %s[%d]' % (r * W + k, i, src, i) for i in range(4)))
+
+
+# ---- `set L begin`: the staging area is blank and has the shape of the NAMED light, whatever was staged before
+#      (a replayed snapshot restores matrix lights of different shapes one after the other: C18)
+for prev in (None, (2, 3), (1, 3), (3, 3), (2, 2)):
+    c = contract('bardolph/vm/machine.py', 'Machine._matrix', serves=['C15', 'C18', 'C01'],
+                 name='Machine._matrix[2x3 light, staged before: %s]' % (prev and '%dx%d' % prev,))
+    def _setup(b, case, prev=prev):
+        impl = lib.device(b, 'dev')
+        light = lib.lifx_light(b, 'matrix', impl, 'L', _height=H, _width=W)
+        ls = lib.light_set_with(b, {'L': light})
+        m = lib.machine(b, 'RAW', ls)
+        m.attrs['_reg'].attrs['name'] = 'L'
+        if prev is not None:
+            cmc = b.cls('bardolph.controller.color_matrix', 'ColorMatrix')
+            m.attrs['_reg'].attrs['matrix'] = b.I.call(cmc.attrs['new_from_constant'], [prev[0], prev[1], PyList([1, 2, 3, 4])], {})
+        return {'self': m}
+    c.setup(_setup)
+    c.define('M', 'self._reg.matrix')
+    c.ensures('blank-and-shaped-like-the-named-light',
+              'M.height == %d and M.width == %d and len(M._mat) == %d and all(len(r) == %d for r in M._mat) and all(all(x is None for x in r) for r in M._mat)' % (H, W, H, W))
+    c.ensures('nothing-sent-yet', "len(ghost('Dev')) == 0")
